@@ -643,6 +643,7 @@ pub fn c16_strategy(transports: BoxedStrategy<Transport>) -> BoxedStrategy<ConvC
         2 => (0u8..3, ws_strategy()).prop_map(|(t, ws)| (1u8, t, ws)), // ws in name
         3 => (0u8..3, ws_strategy()).prop_map(|(t, ws)| (2u8, t, ws)), // ws before colon
         4 => proptest::sample::select(bad_cl_values()).prop_map(|v| (3u8, 0u8, v.to_string())), // bad CL value
+        2 => proptest::sample::select(vec![" ", "\t", "  ", " \t "]).prop_map(|v| (4u8, 2u8, v.to_string())), // a line of whitespace only (empty fold line)
     ];
     (1usize..=3, any::<proptest::sample::Index>(), kind, headers_strategy(3), transports, any::<bool>(), proptest::collection::vec(small_respond(), 3))
         .prop_map(|(n, at, (kind, target, text), headers, transport, fold_first, fins)| {
@@ -665,6 +666,7 @@ pub fn c16_strategy(transports: BoxedStrategy<Transport>) -> BoxedStrategy<ConvC
                     let pos = if fold_first { 0 } else { r.headers.len() };
                     r.headers.insert(pos, Hdr::new(hname, &hvalue));
                     r.mal = Some(match kind {
+                        4 => Malform::HeaderNoColon { at: pos, text: text.clone() },
                         0 => Malform::WsBeforeName { at: pos, ws: text.clone() },
                         1 => Malform::WsInName { at: pos, ws: text.clone() },
                         2 => Malform::WsBeforeColon { at: pos, ws: text.clone() },
@@ -732,7 +734,7 @@ pub fn c18_strategy(transports: BoxedStrategy<Transport>) -> BoxedStrategy<ConvC
             }
             let rd = render(&conv);
             let total = rd.bytes.len();
-            let script = if expect {
+            let script = if expect && (mask >> 29) % 4 != 0 {
                 // send the head, wait for *a* message (the 100, or the final answer), then the rest
                 vec![Step::Send { from: 0, to: rd.ranges[0].head_end }, Step::AwaitMsgs(1), Step::Send { from: rd.ranges[0].head_end, to: total }, Step::HalfClose]
             } else {
@@ -874,6 +876,37 @@ pub fn c06_failing_strategy(transports: BoxedStrategy<Transport>) -> BoxedStrate
             }
             let total = total_len(&conv);
             ConvCase { conv, progs, script: vec![Step::Send { from: 0, to: total }, Step::HalfClose], transport }
+        })
+        .boxed()
+}
+
+/// C12, "the server closes its sending side once everything received has been answered": the
+/// ending request has a streamed body the client has not finished sending, the application
+/// answers without reading it, the client keeps its sending side open and waits for the close
+pub fn c12_withheld_strategy(transports: BoxedStrategy<Transport>) -> BoxedStrategy<ConvCase> {
+    let framing = prop_oneof![
+        3 => prop_oneof![Just(1025usize), Just(4000usize)].prop_map(|n| (Framing::Length { n }, false)),
+        2 => prop_oneof![Just(10usize), Just(3000usize)].prop_flat_map(chunks_strategy).prop_map(|chunks| (Framing::Chunked { chunks, last_zeros: 0, last_ext: None }, false)),
+        2 => prop_oneof![Just(5usize), Just(1024usize)].prop_map(|n| (Framing::Length { n }, true)),
+    ];
+    (framing, 0usize..3, 0u16..1000, transports, any::<u32>(), small_respond(), any::<bool>())
+        .prop_map(|((framing, expect), before, frac, transport, mask, fin, v10)| {
+            let mut conv = Conversation::default();
+            let mut progs = vec![];
+            for i in 0..before {
+                conv.reqs.push(sentinel(i as u32));
+                progs.push(Prog::ok());
+            }
+            let chunked = matches!(framing, Framing::Chunked { .. });
+            let (version, conn) = if v10 && !chunked { ("HTTP/1.0", None) } else { ("HTTP/1.1", Some(["close", "Close", "keep-alive, close"][(mask as usize >> 8) % 3].to_string())) };
+            conv.reqs.push(build_req(before as u32, "POST".into(), "/last".into(), version, vec![Hdr::new("Host", "h")], framing, None, 1, mask, conn, expect));
+            progs.push(Prog { read: ReadPlan::None, finish: fin });
+            let rd = render(&conv);
+            let r = &rd.ranges[before];
+            let body_len = r.end - r.head_end;
+            let cut = r.head_end + (frac as usize * body_len.saturating_sub(1)) / 1000;
+            let script = vec![Step::Send { from: 0, to: cut }, Step::AwaitFinals(before + 1), Step::AwaitEof];
+            ConvCase { conv, progs, script, transport }
         })
         .boxed()
 }
